@@ -61,6 +61,13 @@ def generate(problems):
                 ep_exprs.append(ast.unparse(n.value))
         if len(ep_exprs) != 1:
             problems.append("CliTables: expected one assignment to enable_path in _add_signature_parameter, found %d" % len(ep_exprs))
+    # the `is_optional(...)` calls of _add_signature_parameter in source order, as numbers of arguments: the first one decides
+    # "no default + Optional[...] => default None" and must test the bare annotation (Optional of ANYTHING)
+    opt_calls = []
+    if fn2:
+        calls = [n for n in ast.walk(fn2[0]) if isinstance(n, ast.Call) and isinstance(n.func, ast.Name) and n.func.id == "is_optional"]
+        calls.sort(key=lambda n: (n.lineno, n.col_offset))
+        opt_calls = [ast.unparse(c) for c in calls]
     # sub_configs as auto_cli passes it (the kwargs dict of _add_component_to_parser)
     sub_cfg = []
     for n in ast.walk(tree):
@@ -122,6 +129,7 @@ def generate(problems):
         rows.append((label, tyclass, flags[0] if flags else False, flags[1] if len(flags) > 1 else False))
     body = "namespace Jap.Gen\n"
     body += "def enablePathExpr : List String := %s\n" % lean_str_list(ep_exprs)
+    body += "def isOptionalCalls : List String := %s\n" % lean_str_list(opt_calls)
     body += "def autoCliSubConfigs : List Bool := [%s]\n" % ", ".join("true" if b else "false" for b in sub_cfg)
     body += "/-- (annotation, how _add_signature_parameter classifies it, enable_path of a required positional, of a defaulted option) -/\n"
     body += "def enablePathByType : List (String × String × Bool × Bool) := [%s]\n" % ", ".join(
